@@ -67,5 +67,5 @@ KeyPoolP ==
 KeyMsgs == {PMsgV(<<f>>) : f \in KeyPoolP} \cup {PMsgV(<<f, g>>) : f \in {x \in FieldPoolP : x.num \in {3, 21}}, g \in KeyPoolP}
 \* messages: no field, one field, two fields (ascending field numbers, as the reference emits them)
 RootMsgs(two) == {PMsgV(<<>>)} \cup {PMsgV(<<f>>) : f \in FieldPoolP}
-                 \cup (IF two THEN {PMsgV(<<f, g>>) : f \in FieldPoolP, g \in {x \in FieldPoolP : x.num \in {17, 21, 22, 2047, 18, 14}}} ELSE {})
+                 \cup (IF two THEN UNION {{PMsgV(<<f, g>>) : g \in {x \in FieldPoolP : x.num \in {17, 21, 22, 2047, 18, 14} /\ x.num > f.num}} : f \in FieldPoolP} ELSE {})
 =============================================================================
